@@ -10,6 +10,9 @@ DYADIC_HARNESSES = [
 PROPS = {
     'C16': {
         'level': 'proof',
+        'level_text': 'machine-checked contracts (Verus) on the extracted real text of phase.rs: canonical representative in (-1,1], arithmetic agrees with rationals mod 2, classification depends only on the class; for all inputs in the stated no-overflow range',
+        'level_note': 'assumed contracts for num::Ratio<i64> (stub), i64::rem_euclid/abs; uniqueness of reduced fractions as an axiom; see evidence trusted_base/assumptions',
+        'technique': 'Verus contracts (requires/ensures/decreases + lemmas over reals mod 2) on mechanically extracted functions of phase.rs',
         'verus': ['phase'],
         'assumptions': [
             'num::rational::Ratio<i64> is replaced by a signature-compatible stub whose contracts restate num-rational 0.4.2 (new reduces, denominators positive, + - * exact) under explicit no-overflow preconditions',
@@ -21,6 +24,9 @@ PROPS = {
     },
     'C07': {
         'level': 'proof',
+        'level_text': 'contract harnesses proved by Kani/CBMC over the full 64-bit symbolic domain of the loop-free Dyadic code (complete, not bounded): representation invariant, exact-or-flagged results, order, signed views, conversions',
+        'level_note': 'supported exponent range |exp| < 2^29; CBMC bit-precise semantics + kissat; one open known finding (F8) carved out of val_and_exp; see evidence',
+        'technique': 'Kani contract harnesses (complete, loop-free, full 64-bit domain) on the real dyadic.rs',
         'verus': [],
         'kani': [{'unit': 'dyadic', 'file': 'quizx/src/scalar/dyadic.rs', 'harnesses': DYADIC_HARNESSES,
                   'thorough_harnesses': ['add_error_bound'],
@@ -35,6 +41,9 @@ PROPS = {
     },
     'C10': {
         'level': 'proof',
+        'level_text': 'machine-checked contracts (Verus) on the extracted real text of params.rs: Parity addition denotes XOR under every assignment and keeps the sorted normal form, is_one is exactly "constant 1", Expr::quadratic denotes the conjunction; unbounded in the number of variables. The rule/simplifier part of the statement is not covered (stated in evidence.not_covered)',
+        'level_note': 'assumed: Vec/array -> Box<[u32]> conversions keep elements; derived PartialEq is structural; derived Ord uninterpreted; sortedness is a precondition',
+        'technique': 'Verus contracts with a loop invariant over all assignments on mechanically extracted functions of params.rs',
         'verus': ['params'],
         'assumptions': [
             'Vec<u32> -> Box<[u32]>, [u32; N] -> Box<[u32]> and Box<[u32]>::clone keep the elements in order (stubs vec_into_boxed / arr1_into_boxed / arr0_into_boxed / boxed_clone)',
